@@ -175,6 +175,7 @@ func yaccParse(text string) (cond influxql.Expr, err error) {
 var hangs int
 
 type result struct {
+	badRegex bool // rejected because a regex literal does not compile (the model does not compile regexes)
 	accepted bool
 	t1, t2   string // dumps; t2 = "err" when ParseExpr fails
 	printed  string
@@ -190,6 +191,7 @@ func roundTrip(text string) (r result) {
 		return
 	}
 	if err != nil {
+		r.badRegex = strings.Contains(err.Error(), "Invalid regexprs")
 		return
 	}
 	r.accepted = true
@@ -491,6 +493,14 @@ func runExpr(c *hx.Ctx, g *gen, text string, mutated bool) {
 	r := roundTrip(text)
 	op := "expr " + hx16(text)
 	ans := r.answer()
+	if r.badRegex {
+		// a broken statement can make the scanner read a long stretch of text as one regex
+		// literal; whether Go's regexp accepts it is outside the model
+		c.Count("answer:regex-does-not-compile")
+		c.Emit("xexpr "+hx16(text), "skip")
+		c.Case("xexpr "+text, false)
+		return
+	}
 	if r.accepted && strings.Contains(r.t1, "<*") {
 		// a node type outside the model (sub-select IN condition, CASE): not a modelled case
 		c.Count("answer:unmodelled-node-type")
